@@ -35,6 +35,10 @@ func c26(p *core.Program, r *core.Report) {
 	c26BufferUntouched(p, r)
 	r.Rule("R3", "quoting is the inverse of unquoting: the parser reads string literals with strconv.Unquote, so in package pql's printing code (everything outside the generated parser) a string is put between double quotes only by strconv.Quote or the %q verb; wrapping by hand (concatenation with a `\"` literal, or a format like \"%s\" with the quotes written out) is accepted only around time.Time.Format results")
 	c26Quoting(p, r)
+	r.Rule("R5", "list elements are printed like scalars: a printing function of package pql (outside the generated parser) that takes a []interface{} hands each element to formatValue and prints none with a fmt verb of its own")
+	c26ListElements(p, r)
+	r.Rule("R6", "conversion errors are not discarded: wherever package pql (generated parser actions included) turns query text into a value with strconv (Unquote, ParseInt, ParseFloat, ...), the error result is kept, not assigned to _")
+	c26ConversionErrors(p, r)
 	r.NotDecided = "that the PEG grammar accepts exactly PQL; escape handling inside strconv.Unquote; numeric range handling; values nested inside lists"
 	qp, pk := p.Pkg("pql"), p.Pkg("")
 	if qp == nil || pk == nil {
